@@ -47,7 +47,12 @@ def aligned(v: Sequence[float]) -> bool:
 
 _f11 = st.floats(-1.0, 1.0)
 vec3 = st.tuples(_f11, _f11, _f11).map(list)
-nlen = st.floats(-0.7, 0.7).map(lambda x: 10.0**x)  # length of a "non-unit" direction / normal
+# length of a "non-unit" direction / normal: anything within a decade, or a unit vector written with 6-8 decimals
+# (length 1 -+ 1e-8 .. 1e-6, as typed by hand or exported by CAD)
+nlen = st.one_of(
+    st.floats(-0.7, 0.7).map(lambda x: 10.0**x),
+    st.tuples(st.floats(-8.0, -6.05), st.sampled_from([1, -1])).map(lambda t: 1.0 + t[1] * 10.0 ** t[0]),
+)
 
 
 # --------------------------------------------------------------------------------------------------
@@ -122,9 +127,18 @@ class Line(Manifold):
     nparams = 1
 
     def __init__(self, spec, anchor, size):
+        self.bounded = bool(spec["bounded"])
+        if spec.get("_p2") is not None:
+            # the line from the anchor (t = 0) through another given point (the idiom LineClamp(v, v, w))
+            self.p1 = np.asarray(anchor, float)
+            self.p2 = np.asarray(spec["_p2"], float)
+            self.length = float(np.linalg.norm(self.p2 - self.p1))
+            self.u = (self.p2 - self.p1) / self.length
+            self.t0 = 0.0
+            self.box = [-spec["lo"] * size, spec["hi"] * size] if self.bounded else [0.0, self.length]
+            return
         self.u = unit(fix_vec(spec["dir"]))
         self.length = spec["len"] * size
-        self.bounded = bool(spec["bounded"])
         small = spec.get("near_guess")  # anchor this close (x size) to the clamp's initial-guess point p1 (t = 0)
         if self.bounded:
             t0 = (small if small is not None else spec["t0"]) * size
@@ -136,12 +150,14 @@ class Line(Manifold):
         self.p2 = self.p1 + self.length * self.u
         self.t0 = t0
 
-    def make_clamp(self, position):
+    def make_clamp(self, position, ends=None):
+        """ends: the two arrays to hand over as point_1 / point_2 (e.g. live vertex.position arrays) instead of copies"""
         import classy_blocks as cb
 
+        p1, p2 = ends if ends is not None else (self.p1, self.p2)
         if self.bounded:
-            return cb.LineClamp(position, self.p1, self.p2, (self.box[0], self.box[1]))
-        return cb.LineClamp(position, self.p1, self.p2)
+            return cb.LineClamp(position, p1, p2, (self.box[0], self.box[1]))
+        return cb.LineClamp(position, p1, p2)
 
     def param(self, x) -> float:
         return float((np.asarray(x, float) - self.p1) @ self.u)
@@ -545,7 +561,7 @@ def spec_free():
     return st.just({"type": "free"})
 
 
-def spec_line(reach: float = 1.0, bounded=None, near_guess: bool = False):
+def spec_line(reach: float = 1.0, bounded=None, near_guess: bool = False, through: bool = False):
     hw = _halfwidths(reach)
     return st.fixed_dictionaries(
         {
@@ -556,6 +572,8 @@ def spec_line(reach: float = 1.0, bounded=None, near_guess: bool = False):
             "t0f": _pos,
             "t0": st.floats(-2.0, 2.0),
             "near_guess": _near if near_guess else st.none(),
+            # C13: the line runs from the clamped vertex through another vertex (picked by this number)
+            "through": st.one_of(st.none(), st.integers(0, 199)) if through else st.none(),
             "hw": hw,
         }
     ).map(lambda d: {**{k: v for k, v in d.items() if k != "hw"}, "lo": d["hw"][0], "hi": d["hw"][1]})
